@@ -13,10 +13,11 @@ RULE = ("scripts on a connected node with 1..5 instrumented processes (some regi
         "then optionally an over-long length prefix or a premature close followed by more traffic and calls; interleaved with local sends; "
         "observations: events of every process, connection table, call results. distinct = distinct script; non-trivial = at least three "
         "inbound frames")
-ASSUMPTIONS = ["the node negotiates its default flags: a conforming peer then sends pass-through frames only",
+ASSUMPTIONS = ["one script per run holds the connection quiet for 11 s of wall clock with a tick every second (the idle timeout is 10 s)",
+               "the node negotiates its default flags: a conforming peer then sends pass-through frames only",
                "the identifiers of local processes in inbound frames are predicted from the allocation order (ids from 1, serial 0, creation "
                "assigned by the EPMD stand-in); a wrong prediction would show as a routing violation",
-               "quiet periods are not simulated (the idle timeout is 10 s of wall clock); ticks are sent as frames"]
+               "longer or irregular quiet periods are not sampled"]
 PEER_PID = ("p", b"peer@h", 7, 0, 1, None)
 PEER_REF = ("r", b"peer@h", 1, [5, 6, 7], None)
 NAMES = [b"alice", b"bob"]
@@ -105,6 +106,14 @@ def gen_script(rng):
                 expect.append(None)
                 calls[-1]["state"] = ("reply", etf.denote(("t", [("a", b"rex"), body])))
             continue
+        elif r < 0.93 and calls and connected:
+            pend = [k for k, c in enumerate(calls) if c["state"] == "pending"]
+            if pend:
+                # only calls whose request was sent are numbered by the peer: all of them here (connected)
+                sent_idx = [k for k, c in enumerate(calls) if c["state"] != "notconnected"]
+                steps.append("replystale @%d %s %s" % (sent_idx.index(pend[0]), rng.choice(["creation", "serial"]), etf.show(("t", [("a", b"rex"), ("a", b"stale")]))))
+            else:
+                steps.append("tick")
         elif r < 0.95 and connected and rng.random() < 0.5:
             steps.append(rng.choice(["overlong", "close"]))
             connected = False
@@ -177,6 +186,12 @@ def run(ctx):
         c, e, nf = gen_script(rng)
         EXPECT[c] = e
         cases.append(c)
+
+    # a quiet period longer than the connection's idle timeout (10 s), filled with ticks: the connection must survive it
+    pid0 = pid_k(0)
+    c = SEP.join(["node 1", "spawn", "quiet 11", "frame " + pt(("t", [("i", 2), ("a", b""), pid0]), ("a", b"after"), rng), "sync", "events $0", "conns"])
+    EXPECT[c] = [None, None, None, None, ("events", nodelib.norm_events("R a 6166746572 , R a 73796e63")), "1"]
+    cases.append(c)
 
     def classify(c, impl):
         out = []
